@@ -444,9 +444,16 @@ fn handle(node: &Node, role: &str, d: &[u8]) -> Value {
 }
 
 fn hostile_label_response(label: &[u8], under_service: bool) -> Vec<u8> {
-    // a response whose records are owned by <label>._svc._tcp.local (ingested by the discoverer)
-    let mut owner = vec![label.len() as u8];
-    owner.extend(label);
+    hostile_labels_response(&[label.to_vec()], under_service)
+}
+
+fn hostile_labels_response(labels: &[Vec<u8>], under_service: bool) -> Vec<u8> {
+    // a response whose records are owned by <labels>._svc._tcp.local (ingested by the discoverer)
+    let mut owner = vec![];
+    for label in labels {
+        owner.push(label.len() as u8);
+        owner.extend(label);
+    }
     if under_service {
         owner.extend(b"\x04_svc\x04_tcp\x05local\x00");
     } else {
@@ -461,11 +468,45 @@ fn hostile_label_response(label: &[u8], under_service: bool) -> Vec<u8> {
 }
 
 fn hostile_label_query(label: &[u8]) -> Vec<u8> {
+    hostile_labels_query(&[label.to_vec()], true)
+}
+
+fn hostile_labels_query(labels: &[Vec<u8>], under_service: bool) -> Vec<u8> {
     let mut m = vec![0, 7, 0, 0, 0, 1, 0, 0, 0, 0, 0, 0];
-    m.push(label.len() as u8);
-    m.extend(label);
-    m.extend(b"\x04_svc\x04_tcp\x05local\x00\x00\xff\x00\x01");
+    for label in labels {
+        m.push(label.len() as u8);
+        m.extend(label);
+    }
+    if under_service {
+        m.extend(b"\x04_svc\x04_tcp\x05local\x00\x00\xff\x00\x01");
+    } else {
+        m.extend(b"\x05local\x00\x00\xff\x00\x01");
+    }
     m
+}
+
+/// leading labels that bring a name with a suffix of `suffix` wire bytes (root included) to `total` wire bytes:
+/// labels of `unit` bytes and one shorter label in front
+fn labels_to_total(total: usize, suffix: usize, unit: usize) -> Vec<Vec<u8>> {
+    let mut left = total.saturating_sub(suffix);
+    let mut v = vec![];
+    while left >= unit + 1 {
+        v.push(vec![b'm'; unit]);
+        left -= unit + 1;
+    }
+    if left >= 2 {
+        v.insert(0, vec![b'r'; left - 1]);
+    } else if left == 1 && !v.is_empty() {
+        // one byte cannot be a label of its own: lengthen ... no, shorten the last unit label and add a 1-byte label
+        let l = v.pop().unwrap();
+        if l.len() >= 2 {
+            v.push(l[1..].to_vec());
+            v.insert(0, vec![b'r'; 1]);
+        } else {
+            v.push(l);
+        }
+    }
+    v
 }
 
 pub fn run_datagram(a: &Args) {
@@ -544,6 +585,17 @@ pub fn run_datagram(a: &Args) {
             }
             l.truncate(63);
             hostile_labels.push(l);
+        }
+    }
+    // names at the size limits: 253, 254 and 255 wire bytes (the maximum), 256 (refused by the parser), made of
+    // 63-byte labels, of 1-byte labels (127 labels) and of 7-byte labels, under the watched service and outside it
+    for total in [253usize, 254, 255, 256] {
+        for unit in [63usize, 1, 7] {
+            for under in [true, false] {
+                let labels = labels_to_total(total, if under { 17 } else { 7 }, unit);
+                grams.push((format!("long-name response total={total}"), hostile_labels_response(&labels, under)));
+                grams.push((format!("long-name query total={total}"), hostile_labels_query(&labels, under)));
+            }
         }
     }
     for label in hostile_labels {
